@@ -2,6 +2,8 @@
 import itertools
 import gen, gen_rules, patdiff, impl, model
 
+import enginetie
+
 CONSTS = ("IGNORE_INST_ADDR", "IGNORE_NAME_PREFIX", "IGNORE_NAME_SUFFIX", "SKIP_TO_END_OF_PATTERN_NODE")
 ASSUMPTIONS = [
     "names are literal: free of regex metacharacters and of , | :, not starting with $ & @, not 'times', "
@@ -57,6 +59,8 @@ def one(ctx, doc, insts, tag):
 
 
 def run(ctx, factor):
+    # engine tie T2: the model of the regex engine alone against the real engine (random ASTs of the emitted operator set)
+    enginetie.run(ctx, ctx.budget(500, 20000))
     g, rep = ctx.g, ctx.report
     rep.rule = ("rules = lists of 1-4 literal items (mnemonic + 0-3 positional operand names) x 4 flag settings; "
                 "small-scope exhaustive part (items<=2, operands<=2, distinguishable names) then random; listings "
